@@ -153,6 +153,20 @@ def run(pid, tier, seed, replay):
         t["lines"] += t3["lines"]
         t["distinct"] += t3["distinct"]
         t["generated"] += t3["generated"]
+        # machines whose walk for one message emits and fails later (also at the error node): what they emitted before is
+        # reported and fed back (the same runs as C08's crew stage, judged against the composed model)
+        eout = os.path.join(wd, "emitcrew.ndjson")
+        vlib.run([sdrv, "emitcrew", str(300 if tier == "quick" else 4000), str(seed + 5), eout], timeout=6000)
+        jd5 = vlib.fresh_dir(pid, "judge_emitcrew")
+        bad5, stats5, t5 = vlib.judge_cases(jd5, "Trace_Sheens.tla", "Trace_Sheens.cfg", eout)
+        for b in bad5:
+            c = b["case"]
+            rep.reject("emitcrew: the crew's reported emissions or states differ from the composed model at input(s) %s on %s" % (b.get("at"), c["raw"][:300]), b.get("sigs", []),
+                       {"property": pid, "labels": sorted(b["sheens"]), "at": b.get("at"), "case": {"raw": c["raw"], "steps": c["steps"]}})
+        log("  emitcrew: %d runs of crews whose machines emit and fail, %d rejected" % (t5["lines"], len(bad5)))
+        t["lines"] += t5["lines"]
+        t["distinct"] += t5["distinct"]
+        t["generated"] += t5["generated"]
         # Beyond the property (C14 speaks of the two crew hosts): the single-machine host cmd/msimple, which gives emitted
         # messages back to its machine depth first (MsimpleOps.tla on top of the same step/walk/match model).  MC_Msimple.tla is
         # model-checked on a concrete machine and runs of the real binary (built from the tree under test) are judged against
